@@ -86,6 +86,15 @@ SPECS = {
     # --- C08: reader against writers that complete whole writes between its steps
     'wf_fast': {'name': 'wf_fast', 'setup': 'cs_setup_pool', 'threads': [(W, 'cs_r_load_only'), (W, 'cs_w_store_pool12')], 'covers': []},
     'wf_full8': {'name': 'wf_full8', 'setup': 'cs_setup_pool2', 'threads': [('cs_fill8_t1', 'cs_r_load_only'), (W, 'cs_w_store_pool12')], 'covers': []},
+    # --- deeper scenarios aimed at multi-step regressions
+    'cache_rt': {'name': 'cache_rt', 'setup': 'cs_setup1', 'threads': [('cs_cache_init_t1', 'cs_r_cache_rt'), (W, 'cs_w_store12')],
+                 'final': 'cs_final_cache', 'covers': [13, 15]},
+    'lin_fb_own': {'name': 'lin_fb_own', 'setup': 'cs_setup3', 'threads': [('cs_fill8c_t1', 'cs_r_load_store_load'), (W, 'cs_w_store_a2')],
+                   'final': 'cs_final3', 'covers': [13]},
+    'iso_ba': {'name': 'iso_ba', 'setup': 'cs_setup3', 'threads': [('cs_fill8c_t1', 'cs_r_load_b_then_a'), (W, 'cs_w_store_b_pool3')],
+               'final': 'cs_final3', 'covers': [13]},
+    'rcu_reuse': {'name': 'rcu_reuse', 'setup': 'cs_setup_min', 'threads': [(W, 'cs_w_rcu_payload'), (W, 'cs_w_store_reuse')],
+                  'final': 'cs_final_rcu_reuse', 'covers': [13]},
     # --- two containers: writer of B walks the node of a reader of A which is on the fallback path
     'iso_b': {'name': 'iso_b', 'setup': 'cs_setup2', 'threads': [('cs_fill8_t1', 'cs_r_fallback'), (W, 'cs_w_store_b3')],
               'final': 'cs_final2_release', 'covers': [13, 14]},
@@ -120,6 +129,7 @@ def c02(ctx):
     ctx.outside += CONC_OUTSIDE
     conc_set(ctx, ['a_keep', 'swap2'] if ctx.tier == 'quick' else ['a_keep', 'swap2', 'a_fast', 'a_full', 'b_held3', 'moved_guard', 'cas_aba', 'rcu2'])
     seq_run(ctx, 'c14_default_2', covers=(1, 2))
+    seq_run(ctx, 'c14_cursor')
     seq_run(ctx, 'c10_seq_threads')
 
 
@@ -188,6 +198,7 @@ def c14(ctx):
     ctx.outside += ['programs longer than the bound', 'several containers in one program', 'None values (covered in C05/C16)']
     n = '2' if ctx.tier == 'quick' else '3'
     seq_run(ctx, 'c14_default_' + n, covers=(1, 2), max_paths=400000)
+    seq_run(ctx, 'c14_cursor')
     seq_run(ctx, 'c14_nofast_' + n, features=TS, covers=(1, 2), max_paths=400000)
     seq_run(ctx, 'c14_rwlock_' + n, features=TS, covers=(1, 2), max_paths=400000)
     if ctx.tier != 'quick':
@@ -219,7 +230,7 @@ def c18(ctx):
                                         'projection inside Map::load'], 'threads': 'sequential, follow-up operations on a second simulated thread',
                        'flavour': 'panic=unwind: landing pads, cleanup and resume are executed'})
     ctx.outside += ['panics with concurrent readers/writers (sequential fault injection only)', 'Clone of a custom pointee']
-    for e in ['c18_rcu', 'c18_store_drop', 'c18_cas_reject', 'c18_map']:
+    for e in ['c18_rcu', 'c18_rcu_drop', 'c18_store_drop', 'c18_cas_reject', 'c18_map']:
         seq_run(ctx, e, flavor='unw')
 
 
